@@ -11,7 +11,7 @@ RUN_MODULE = "C03.Run"
 RUN_FN = "run_case"
 HARNESS_BIN = "c03"
 HARNESS_BINS = ["c03"]
-SHRINK_KEEP = ("h1", "h2")
+SHRINK_KEEP = ("h1", "h2", "guard")
 RULE = ("cases: (h2) HTTP/2 header lists = the four pseudo-headers mutated (missing, duplicated, after a regular field, "
         "unknown, upper-case, empty, every :path form, bad :scheme/:method bytes) + regular fields from pools with one "
         "forbidden byte class at a time in names and values, connection-specific names, te variants, content-length "
@@ -69,6 +69,18 @@ def translate():
     for rx, what in checks:
         if not re.search(rx, pk):
             fails.append("pkawa.rs: %s no longer has the shape the model mirrors" % what)
+    ed = open(os.path.join(vlib.REPO, "lib/src/protocol/kawa_h1/editor.rs")).read()
+    for rx, what in [
+        (r"if key\.is_empty\(\) \|\| !key\.iter\(\)\.all\(\|&b\| is_token_byte\(b\)\)", "h1_framing_violation: field name is a non-empty token"),
+        (r"if transfer_encoding_seen \|\| !compare_no_case\(header\.val\.data\(buf\), b\"chunked\"\)", "h1_framing_violation: Transfer-Encoding exactly one chunked"),
+        (r"if val\.is_empty\(\) \|\| !val\.iter\(\)\.all\(u8::is_ascii_digit\)", "h1_framing_violation: Content-Length 1*DIGIT"),
+        (r"b\.is_ascii_alphanumeric\(\) \|\| b\"!#\$%&'\*\+-\.\^_`\|~\"\.contains\(&b\)", "is_token_byte table"),
+        (r"\.is_some_and\(\|m\| !m\.is_empty\(\) && m\.iter\(\)\.all\(\|&b\| is_token_byte\(b\)\)\)", "method is a token"),
+        (r"if request\.body_size == kawa::BodySize::Empty\s*&& request\.parsing_phase == kawa::ParsingPhase::Body\s*\{\s*request\.parsing_phase = kawa::ParsingPhase::Terminated;", "a request without framing has no body"),
+        (r"if let Some\(reason\) = h1_framing_violation\(&request\.blocks, buf\) \{\s*request\.parsing_phase\.error\(reason\.into\(\)\);\s*return;", "a framing violation is turned into a parse error (400)"),
+    ]:
+        if not re.search(rx, ed):
+            fails.append("editor.rs: %s no longer has the shape the model's h1_guard mirrors" % what)
     for rx, what in [(r"if data_received > expected \{", "DATA total > Content-Length => reset"),
                      (r"if data_received != expected \{", "END_STREAM: DATA total != Content-Length => reset"),
                      (r"if \*parts\.data_received != expected \{", "trailers: DATA total != Content-Length => reset")]:
@@ -272,11 +284,47 @@ def h1_case(rng, cid):
     return Case(cid, ops, dict(kind="h1", n=n, muts=len([k for k in muts if k != "none"])))
 
 
+GNAMES = ["Accept", "x-a", "X\"Y", "a/b", "", "X-B", "Transfer-Encoding", "transfer-encoding", "Content-Length", "content-length",
+          "Content-Lengthx", "Transfer-Encodin", "TE", "x^~", "X!#$%&'*+-.^_`|~"]
+GTE = ["chunked", "Chunked", "CHUNKED", "xchunked", "gzip, chunked", "chunked, chunked", "identity, chunked", "chunked "]
+GCL = ["0", "7", "007", "+7", "+0", "-0", "18446744073709551615"]
+
+
+def guard_case(rng, cid):
+    """a header list through sozu's own HTTP/1 acceptance (kawa + on_request_headers)"""
+    method = rng.choice(["GET", "POST", "get", "M-SEARCH", "G\"T", "A/B", "PUT"])
+    hs, have_te, have_cl = [], False, False
+    for _ in range(rng.randint(0, 5)):
+        n = rng.choice(GNAMES)
+        if n.lower() == "transfer-encoding":
+            if have_cl:
+                continue
+            v = rng.choice(GTE)
+            if not v.lower().endswith("chunked"):
+                continue          # kawa does not even frame it: out of this op's family
+            have_te = True
+        elif n.lower() == "content-length":
+            if have_te or have_cl:
+                continue
+            v = rng.choice(GCL)
+            if v.lstrip("+-") != "0":
+                continue          # no body bytes are appended by the driver
+            have_cl = True
+        else:
+            v = rng.choice(["", "a", "x y", "chunked", "1"])
+        hs.append((n, v))
+    op = ["guard", b(method)]
+    for (n, v) in hs:
+        op += [b(n), b(v)]
+    return Case(cid, [op], dict(kind="guard", n=len(hs)))
+
+
 def gen_cases(rng, tier):
     n = {"quick": 6000, "thorough": 120000, "search": 20000}.get(tier, 6000)
     out = []
     for i in range(n):
-        out.append(h2_case(rng, "a%d" % i) if i % 2 == 0 else h1_case(rng, "b%d" % i))
+        r = i % 5
+        out.append(h2_case(rng, "a%d" % i) if r in (0, 2) else guard_case(rng, "g%d" % i) if r == 4 else h1_case(rng, "b%d" % i))
     return out
 
 
@@ -296,6 +344,8 @@ def nontrivial(case, o):
     t = case.tags
     if t.get("kind") == "h2":
         return any(ob and ob[0] == "accept" for ob in o["obs"]) and t.get("regs", 0) >= 2
+    if t.get("kind") == "guard":
+        return t.get("n", 0) >= 2
     return t.get("n", 0) >= 2 or t.get("muts", 0) >= 1
 
 
